@@ -34,7 +34,7 @@ ALPHA = [
     ('exec-data pid 55 by 3', lambda ts: [R('TRACE_DATA_EXEC', 0, (55, 0, 0, 0), tid=3, ts=ts)]),
     ('exec-string by 3', lambda ts: [R('TRACE_STRING_EXEC', 0, tid=3, ts=ts, data=b'execd'.ljust(32, b'\0'))]),
 ]
-MAPS = [[], [(1, 10, 'A')], [(1, 10, 'A'), (2, 20, 'B')]]
+MAPS = [[], [(1, 10, 'A')], [(1, 10, 'A'), (2, 20, 'B')], [(1, 2, 'A'), (2, 1, 'B'), (3, 3, 'C')]]   # last: tids collide with pids
 _TC = None
 
 
@@ -223,7 +223,7 @@ class C14(Check):
     level = 'model_checking'
     rule = ('all 2^6 column-switch settings x colour {off,on} x all record streams of <=2 (quick) / <=3 (thorough) items over 9 kinds '
             '(syscalls on a declared and an undeclared thread, NEWTHREAD data/string, EXEC data/string, terminate-pid, sampler '
-            'thread-data, unrelated record) x thread maps {empty, 1 entry, 2 entries}, through formatted_kevents and '
+            'thread-data, unrelated record) x thread maps {empty, 1 entry, 2 entries, 3 entries whose tids collide with other entries\' pids}, through formatted_kevents and '
             'formatted_traces (+ one callstack dump through formatted_callstacks, one v3 log dump through formatted_logs). '
             'Oracle: line(config) == concatenation in fixed order of the single-column renderings; ANSI-stripped coloured line == '
             'plain line; process column == reference table evolution (thread map, then updates in stream order) rendered '
